@@ -48,7 +48,7 @@ def CHG_EPI(pos):
 
 
 def m(path, **kw):
-    d = dict(kind="fn", file=C, path="Compiler::" + path, props=["C01", "C08"])
+    d = dict(kind="fn", file=C, path="Compiler::" + path, props=["C01", "C14"])
     d.update(kw)
     return d
 
@@ -77,7 +77,7 @@ HELPERS = [
                "fits_all(op, operands@) || final(self).encoding_error is Some",
                "fresh(&sc(final(self)))", "ext(old(self), final(self))", "gen_s(old(self), final(self))", "starts(code(final(self))) == starts(code(old(self))).push(pos as int)",
                "is_start(final(self), pos as int)", "op_at(code(final(self)), pos as int) == op", "code(final(self)).len() == code(old(self)).len() + ilen(op)"],
-      epilogue="assert(lns(self).subrange(0, lns(old(self)).len() as int) =~= lns(old(self))); assert forall|i: int| 0 <= i < lns(old(self)).len() implies lns(self)[i] == lns(old(self))[i] by { assert(lns(self).subrange(0, lns(old(self)).len() as int)[i] == lns(self)[i]); } lemma_emit(old(self), self, op, operands@); lemma_op_of_byte(op); assert forall|a: int| 0 <= a <= verif_ret implies #[trigger] seg(self, a, verif_ret as int) == seg(old(self), a, verif_ret as int) by { assert(seg(self, a, verif_ret as int) =~= seg(old(self), a, verif_ret as int)); } assert(starts(code(self))[starts(code(old(self))).len() as int] == verif_ret);", props=["C01", "C08", "C13", "C14"]),
+      epilogue="assert(lns(self).subrange(0, lns(old(self)).len() as int) =~= lns(old(self))); assert forall|i: int| 0 <= i < lns(old(self)).len() implies lns(self)[i] == lns(old(self))[i] by { assert(lns(self).subrange(0, lns(old(self)).len() as int)[i] == lns(self)[i]); } lemma_emit(old(self), self, op, operands@); lemma_op_of_byte(op); assert forall|a: int| 0 <= a <= verif_ret implies #[trigger] seg(self, a, verif_ret as int) == seg(old(self), a, verif_ret as int) by { assert(seg(self, a, verif_ret as int) =~= seg(old(self), a, verif_ret as int)); } assert(starts(code(self))[starts(code(old(self))).len() as int] == verif_ret);", props=["C01", "C13", "C14"]),
     m("is_last_instruction", ret="r", requires=["self.scope_index < self.scopes@.len()"], ensures=["r == (code(self).len() > 0 && sc(self).last_ins.opcode == opcode)"]),
     m("replace_instruction", requires=["old(self).scope_index < old(self).scopes@.len()", "pos + new_instruction@.len() <= code(old(self)).len()"],
       ensures=["rest_same(old(self), final(self))", "lns(final(self)) == lns(old(self))",
@@ -94,12 +94,12 @@ HELPERS = [
     m("change_operand", requires=PRE + ["is_start(old(self), op_pos as int)", "ilen(op_at(code(old(self)), op_pos as int)) == 2 || ilen(op_at(code(old(self)), op_pos as int)) == 3"],
       ensures=CHG("op_pos", "operand") + ["fits_all(op_at(code(old(self)), op_pos as int), seq![operand]) || final(self).encoding_error is Some"],
       prologue=" proof { lemma_start_bounds(self, op_pos as int); } ",
-      epilogue=CHG_EPI("op_pos"), props=["C01", "C08", "C14"],
+      epilogue=CHG_EPI("op_pos"), props=["C01", "C14"],
       rewrites=[dict(rule="R10", re=r"Opcode::from\(", to="opcode_from_u8(", expect=1, why="From<u8> for Opcode resolves to the extracted impl"),
                 dict(rule="R1", re=r"self\.get_curr_instructions\(\)\.(code|lines)\[op_pos\]", to=r"get_\1_at(&self.scopes[self.scope_index].instructions, op_pos)", expect=2, why="indexing a cloned copy -> indexing the original (clone is structural)")]),
     m("patch_jump", requires=PRE + ["is_start(old(self), pos as int)", "ilen(op_at(code(old(self)), pos as int)) == 2 || ilen(op_at(code(old(self)), pos as int)) == 3"],
       ensures=CHG("pos", "code(old(self)).len() as usize") + ["fits_all(op_at(code(old(self)), pos as int), seq![code(old(self)).len() as usize]) || final(self).encoding_error is Some", "code(old(self)).len() <= usize::MAX"],
-      props=["C01", "C08", "C14", "C06"]),
+      props=["C01", "C14", "C06"]),
     m("remove_last_pop", requires=PRE + ["fresh(&sc(old(self)))", "code(old(self)).len() > 0", "sc(old(self)).last_ins.opcode == Opcode::Pop"],
       ensures=["cwf(final(self))", "code(final(self)) == code(old(self)).subrange(0, sc(old(self)).last_ins.position as int)", "lns(final(self)) == lns(old(self)).subrange(0, sc(old(self)).last_ins.position as int)",
                "sc(final(self)).last_ins == sc(old(self)).prev_ins", "others_same(old(self), final(self))", "scope_meta_same(old(self), final(self))", "final(self).encoding_error == old(self).encoding_error",
@@ -171,13 +171,13 @@ COMPILE = [
     dict(kind="enum", file=ST, path="SymbolScope", attrs=["#[derive(PartialEq, Eq, Structural)]"]),
     dict(kind="struct", file=ST, path="Symbol"),
     dict(kind="struct", file=AM, path="Program"),
-    dict(kind="fn", file=C, path="LoopContext::new", ret="r", ensures=["r.label == label", "r.begin == position", "r.break_positions@.len() == 0"], props=["C08"]),
+    dict(kind="fn", file=C, path="LoopContext::new", ret="r", ensures=["r.label == label", "r.begin == position", "r.break_positions@.len() == 0"], props=["C01"]),
     dict(kind="fn", file=AS, path="Statement::is_expression", ret="r", ensures=["r == (*self is Expr)"], props=["C06"]),
     m("add_constant", ret="r", requires=PRE, ensures=["gen_s(old(self), final(self))", "final(self).scopes == old(self).scopes"], epilogue="lemma_gen_refl(old(self), self);"),
     m("load_symbol", requires=PRE, ensures=["gen_s(old(self), final(self))", "code(final(self)).len() > code(old(self)).len()"], prologue=BCAST),
     m("save_symbol", ret="r", requires=PRE, ensures=GEN_S + ["r is Ok ==> code(final(self)).len() > code(old(self)).len()"], prologue=BCAST),
     m("compile_infix_expr", ret="r", requires=PRE, ensures=GEN_S + ["r is Ok ==> code(final(self)).len() == code(old(self)).len() + 1", "r is Ok ==> last_line_is(old(self), final(self), line)",
-                                                                     "r is Ok ==> sc(final(self)).last_ins.opcode == infix_opcode(operator@) && infix_opcode(operator@) != Opcode::Invalid"], prologue=BCAST + REV, props=["C13", "C09", "C01", "C08"]),
+                                                                     "r is Ok ==> sc(final(self)).last_ins.opcode == infix_opcode(operator@) && infix_opcode(operator@) != Opcode::Invalid"], prologue=BCAST + REV, props=["C13", "C01", "C14"]),
     m("compile_block_statement", ret="r", requires=PRE, ensures=GEN_S, prologue=BCAST + REFL, attrs=NODEC, rewrites=[FORSTMT],
       loops={0: dict(invariant=["verif_k <= verif_v@.len()", "ext0(old(self), self)", "sc(self).scope_depth == sc(old(self)).scope_depth + 1", "tail_ok(old(self), self)",
                                 "code(self).len() > code(old(self)).len() ==> fresh(&sc(self))"],
@@ -186,7 +186,7 @@ COMPILE = [
       loops={0: dict(invariant=["verif_k <= verif_v@.len()", "gen_s(old(self), self)"], decreases="verif_v@.len() - verif_k", body_prologue=BCAST)}),
     m("compile_program", ret="r", requires=PRE, ensures=GEN_S, attrs=NODEC),
     m("compile_let_stmt", ret="r", requires=PRE, ensures=GEN, attrs=NODEC),
-    m("compile_statement", ret="r", requires=PRE, props=["C06", "C01", "C08"],
+    m("compile_statement", ret="r", requires=PRE, props=["C06", "C01", "C14"],
       ensures=GEN_S + ["r is Ok ==> (verif_param is Loop ==> loop_tail(old(self), final(self)))", "r is Ok ==> (verif_param is While ==> while_loop_shape(old(self), final(self)))"],
       prologue=BCAST + REFL, attrs=NODEC + ["#[verifier::rlimit(400)]"],
       rewrites=[
@@ -223,7 +223,7 @@ COMPILE = [
                                 "cwf(&verif_sb)", "code(&verif_sb).len() > 0", "sc(&verif_sb).last_ins.position == pos", "sc(&verif_sb).last_ins.opcode == Opcode::Jump", "fresh(&sc(&verif_sb))", "gen_s(old(self), &verif_sb)", "pos >= code(old(self)).len()", "verif_param is Break"],
                      decreases="verif_k", body_prologue=BCAST),
              3: dict(invariant=["gen_s(old(self), self)", "*self == *old(self)", "verif_param is Continue"], body_prologue=BCAST)}),
-    m("compile_expression", ret="r", requires=PRE, props=["C06", "C13", "C01", "C08"],
+    m("compile_expression", ret="r", requires=PRE, props=["C06", "C13", "C01", "C14"],
       ensures=GEN + ["r is Ok ==> emitted_by(expr, seg(final(self), code(old(self)).len() as int, code(final(self)).len() as int))",
                      # C06: the logical operators are compiled by the short-circuit generators, on their own operands, in source order
                      "r is Ok ==> (expr matches Expression::Binary(b) ==> (b.operator@ == \"&&\"@ ==> and_shape(old(self), final(self), *b.left, *b.right, b.token.line)))",
@@ -237,7 +237,7 @@ COMPILE = [
       prologue=BCAST + REFL + REV, attrs=NODEC,
       epilogue="assume(emitted_by(expr, seg(self, code(old(self)).len() as int, code(self).len() as int)));",
       loops={0: dict(invariant=["gen(old(self), self)"], body_prologue=BCAST), 1: dict(invariant=["gen(old(self), self)"], body_prologue=BCAST), 2: dict(invariant=["gen(old(self), self)"], body_prologue=BCAST)}),
-    m("compile_if_expression", ret="r", requires=PRE, ensures=GEN + ["r is Ok ==> if_shape(old(self), final(self), *expr.condition)"], prologue=BCAST, attrs=NODEC + ["#[verifier::rlimit(400)]"], props=["C06", "C01", "C08"],
+    m("compile_if_expression", ret="r", requires=PRE, ensures=GEN + ["r is Ok ==> if_shape(old(self), final(self), *expr.condition)"], prologue=BCAST, attrs=NODEC + ["#[verifier::rlimit(400)]"], props=["C06", "C01", "C14"],
       rewrites=[dict(rule="R9g", re=r"(self\.compile_expression\([^;]*\)\?;)", nth=0, to=r"\1 let ghost verif_s1 = *self;", why="ghost snapshot after the condition is compiled"),
                 dict(rule="R9g", re=r"(let jump_pos = self\.emit\([^;]*;)", to=r"\1 let ghost verif_sq = *self;", why="ghost snapshot after the jump over the else part is emitted"),
                 dict(rule="R9g", re=r"(self\.patch_jump\(\w+\);)", nth=0, to=r"\1 let ghost verif_s7 = *self;", why="ghost snapshot after the first patch"),
@@ -245,7 +245,7 @@ COMPILE = [
                 dict(rule="R9g", re=r"\n(\s*)Ok\(\(\)\)(\s*\}\s*)$", to=r"\n\1proof { lemma_if_shape(old(self), &verif_s1, &verif_sq, &verif_s7, &verif_s8, self, *expr.condition); }\n\1Ok(())\2", why="proof hint at the accepting exit: the shape of if")]),
     m("compile_identifier", ret="r", requires=PRE, ensures=GEN, prologue=BCAST),
     m("compile_index_expression", ret="r", requires=PRE, ensures=GEN + ["r is Ok ==> last_line_is(old(self), final(self), expr.token.line)",
-                                                                       "r is Ok ==> sc(final(self)).last_ins.opcode == (if expr.context.access is Get { Opcode::GetIndex } else { Opcode::SetIndex })"], prologue=BCAST, attrs=NODEC, props=["C13", "C01", "C08"]),
+                                                                       "r is Ok ==> sc(final(self)).last_ins.opcode == (if expr.context.access is Get { Opcode::GetIndex } else { Opcode::SetIndex })"], prologue=BCAST, attrs=NODEC, props=["C13", "C01", "C14"]),
     m("compile_function_literal", ret="r", requires=PRE, ensures=GEN, prologue=BCAST, attrs=NODEC,
       rewrites=[dict(rule="R9", re=r"(self\.enter_scope\(\);)", to=r"\1 let ghost verif_e = *self;", expect=1, why="ghost snapshot of the compiler after enter_scope"),
                 dict(rule="R9", re=r"(let num_locals = )", to=r"let ghost verif_b = *self; \1", expect=1, why="ghost snapshot of the compiler at the end of the function body"),
@@ -254,12 +254,12 @@ COMPILE = [
                 dict(rule="R1", re=r"\bf\.clone\(\)", to="rc_clone_symbol(f)", expect=1, why="Rc::clone shim")],
       loops={0: dict(invariant=["entered(old(self), self)", "self.scopes == verif_e.scopes", "self.scope_index == verif_e.scope_index", "st_depth(&self.symtab) == st_depth(&verif_e.symtab)", "verif_e.encoding_error is Some ==> self.encoding_error is Some", "entered(old(self), &verif_e)"], after=" proof { lemma_gen_refl(&verif_e, self); } ", body_prologue=BCAST),
              1: dict(invariant=["verif_k <= free_symbols@.len()", "gen(old(self), self)"], decreases="free_symbols@.len() - verif_k", body_prologue=BCAST)}),
-    m("compile_logical_and", ret="r", requires=PRE, ensures=GEN + ["r is Ok ==> and_shape(old(self), final(self), left, right, line)"], prologue=BCAST, attrs=NODEC, props=["C06", "C01", "C08"],
+    m("compile_logical_and", ret="r", requires=PRE, ensures=GEN + ["r is Ok ==> and_shape(old(self), final(self), left, right, line)"], prologue=BCAST, attrs=NODEC, props=["C06", "C01", "C14"],
       rewrites=[dict(rule="R9g", re=r"(self\.compile_expression\(\w+\)\?;)", nth=0, to=r"\1 let ghost verif_s1 = *self;", why="ghost snapshot after the first operand is compiled"),
                 dict(rule="R9g", re=r"(self\.compile_expression\(\w+\)\?;)", nth=1, to=r"\1 let ghost verif_s4 = *self;", why="ghost snapshot after the second operand is compiled"),
                 dict(rule="R9g", re=r"(let jump_if_false_pos = self\.emit\([^;]*;)", to=r"\1 let ghost verif_s2 = *self;", why="ghost snapshot after the conditional jump is emitted"),
                 dict(rule="R9g", re=r"\n(\s*)Ok\(\(\)\)(\s*\}\s*)$", to=r"\n\1proof { lemma_and_shape(old(self), &verif_s1, &verif_s2, &verif_s4, self, left, right, line); }\n\1Ok(())\2", why="proof hint at the accepting exit: the shape of a && b")]),
-    m("compile_logical_or", ret="r", requires=PRE, ensures=GEN + ["r is Ok ==> or_shape(old(self), final(self), left, right, line)"], prologue=BCAST, attrs=NODEC, props=["C06", "C01", "C08"],
+    m("compile_logical_or", ret="r", requires=PRE, ensures=GEN + ["r is Ok ==> or_shape(old(self), final(self), left, right, line)"], prologue=BCAST, attrs=NODEC, props=["C06", "C01", "C14"],
       rewrites=[dict(rule="R9g", re=r"(self\.compile_expression\(\w+\)\?;)", nth=0, to=r"\1 let ghost verif_s1 = *self;", why="ghost snapshot after the first operand is compiled"),
                 dict(rule="R9g", re=r"(self\.compile_expression\(\w+\)\?;)", nth=1, to=r"\1 let ghost verif_s6 = *self;", why="ghost snapshot after the second operand is compiled"),
                 dict(rule="R9g", re=r"(let end_pos = self\.emit\([^;]*;)", to=r"\1 let ghost verif_s3 = *self;", why="ghost snapshot after both jumps are emitted"),
@@ -267,7 +267,7 @@ COMPILE = [
                 dict(rule="R9g", re=r"\n(\s*)Ok\(\(\)\)(\s*\}\s*)$", to=r"\n\1proof { lemma_or_shape(old(self), &verif_s1, &verif_s3, &verif_s4, &verif_s6, self, left, right, line); }\n\1Ok(())\2", why="proof hint at the accepting exit: the shape of a || b")]),
     m("compile_dot_expression", ret="r", requires=PRE, ensures=GEN, prologue=BCAST, attrs=NODEC),
     m("compile_prop_expression", ret="r", requires=PRE, ensures=GEN + ["r is Ok ==> last_line_is(old(self), final(self), expr.token.line)",
-                                                                      "r is Ok ==> sc(final(self)).last_ins.opcode == (if expr.context.access is Get { Opcode::GetProp } else { Opcode::SetProp })"], prologue=BCAST, props=["C13", "C01", "C08"]),
+                                                                      "r is Ok ==> sc(final(self)).last_ins.opcode == (if expr.context.access is Get { Opcode::GetProp } else { Opcode::SetProp })"], prologue=BCAST, props=["C13", "C01", "C14"]),
     m("enter_scope", requires=PRE,
       ensures=["cwf(final(self))", "final(self).scope_index == old(self).scope_index + 1", "final(self).scopes@.len() == old(self).scopes@.len() + 1",
                "forall|j: int| 0 <= j < old(self).scopes@.len() ==> final(self).scopes@[j] == old(self).scopes@[j]",
@@ -283,7 +283,10 @@ UNIT = dict(
     name="cgen",
     prelude="units/cgen/prelude.rs",
     uses="use std::rc::Rc;",
-    lemmas={},
+    lemmas={"lemma_prefix_starts": ["C01"], "lemma_starts_unique": ["C01"], "lemma_prefix_boundary": ["C01"], "lemma_starts_mono": ["C01"], "lemma_append": ["C01"], "lemma_truncate": ["C01"],
+            "lemma_patch": ["C01"], "lemma_emit": ["C01", "C14"], "lemma_patched": ["C01", "C14"], "lemma_removed": ["C01"], "lemma_replaced": ["C01"], "lemma_loop_popped": ["C01"], "lemma_break_recorded": ["C01"],
+            "lemma_ext_trans": ["C01"], "lemma_gen_trans": ["C01"], "lemma_start_kept": ["C01"], "lemma_left": ["C01"],
+            "lemma_and_shape": ["C06"], "lemma_or_shape": ["C06"], "lemma_if_shape": ["C06"], "lemma_while_jumps": ["C06"], "lemma_jumps_kept": ["C06"], "lemma_loop_tail": ["C06"], "lemma_patched_jump": ["C06", "C14"], "lemma_target": ["C06", "C14"]},
     global_rewrites=RW2 + RW,
     rlimit=100,
     items=[
